@@ -24,6 +24,8 @@ clause → theorem
                                                                             `stuck_means_stopped`, `policy_runs_complete`
 * past the end / after release: an error ................................. `past_end_is_error`, `released_is_error`,
                                                                             `other_streams_untouched`
+* concurrent `next`s on one id: schedule-independent outcomes, each chunk
+  handed to at most one request, at most one `last` ...................... `concurrent_next`, `concurrent_at_most_one_last`
 * consumer's concatenation = producer's bytes (sync and async pullers) ... `end_to_end`, `async_eq_sync`
 * with compression, `decompress (compress x) = x` as a hypothesis ......... `end_to_end_compressed`
 * a failing producer makes both pullers return the error ................. `end_to_end_failure`
@@ -267,6 +269,50 @@ theorem other_streams_untouched (sv : Server) (id id' : Nat) (h : id' ≠ id) :
         split
         · exact Server.get_remove_other sv id id' h
         · exact Server.get_put_other sv id id' _ h
+
+/-! ## concurrent `next` requests on one stream -/
+
+/-- Any number `k` of `next` requests for the same stream id (from any connections), any interleaving
+of their three lock regions (table lookup, pull under the session lock, table removal) and of
+`cancel`s:
+* the outcomes of the session-lock regions, in lock order, are the **sequential** pull results of the
+  delivered message sequence followed by errors — the schedule cannot change them;
+* every request that got through the lock holds the outcome logged at its own index, different
+  requests have different indices (each chunk is handed to at most one request), a framed response
+  is the image of that outcome, and a request that found no table entry answers an error. -/
+theorem concurrent_next (msgs : List Msg) (k : Nat) (sched : List Act) :
+    let s := Conc.run Gen.svsFacts (Conc.init msgs k) sched
+    s.log = padRes s.log.length (feedRun .fresh msgs) ∧ s.CallInv Gen.svsFacts := by
+  have hlog := Conc.run_logInv Gen.svsFacts { rx := msgs } sched (Conc.init msgs k) ⟨rfl, rfl⟩
+  obtain ⟨hi1, hi2⟩ := Conc.init_callInv Gen.svsFacts msgs k
+  refine ⟨?_, Conc.run_callInv Gen.svsFacts sched _ hi1 hi2⟩
+  have := hlog.1
+  rw [lockedAll_spec Gen.svsFacts nextOk] at this
+  exact this
+
+/-- For a clean stream of chunks `cs`: across all concurrent requests the chunks handed out, in lock
+order, are an initial segment of `pullsOf cs` — nothing twice, nothing skipped — and at most one
+response carries `last`. -/
+theorem concurrent_at_most_one_last (cs : List Bytes) (k : Nat) (sched : List Act) :
+    let s := Conc.run Gen.svsFacts (Conc.init (cs.map .chunk ++ [.end]) k) sched
+    (∃ m, s.log.filterMap okPair = (pullsOf cs).take m) ∧
+    ((s.log.filterMap okPair).filter (·.2)).length ≤ 1 := by
+  obtain ⟨h1, _⟩ := concurrent_next (cs.map .chunk ++ [.end]) k sched
+  simp only [] at h1 ⊢
+  rw [feedRun_fresh_clean [] cs] at h1
+  have hp := padRes_okPairs (Conc.run Gen.svsFacts (Conc.init (cs.map .chunk ++ [.end]) k) sched).log.length (pullsOf cs)
+  rw [← h1] at hp
+  refine ⟨⟨_, hp⟩, ?_⟩
+  rw [hp]
+  have hsub : (((pullsOf cs).take (Conc.run Gen.svsFacts (Conc.init (cs.map .chunk ++ [.end]) k) sched).log.length).filter (·.2)).Sublist
+      ((pullsOf cs).filter (·.2)) := (List.take_sublist _ _).filter _
+  have := hsub.length_le
+  rw [(exactly_one_last cs).2] at this
+  exact this
+
+example : (Conc.run Gen.svsFacts (Conc.init [.chunk [1], .chunk [2], .end] 3)
+    [.call 0, .call 1, .call 1, .call 0, .call 2, .call 2, .call 0, .call 1, .cancel, .call 2]).log
+    = [.ok ([1], false), .ok ([2], true), .error finishedMsg] := by rfl
 
 /-! ## end to end -/
 
